@@ -213,10 +213,34 @@ func (w ACLWorld) Generate(rng *rand.Rand, tier string, runIdx uint64) simkit.Pl
 		}
 		p.Steps = append(p.Steps, Step{Op: "resolve", Text: SecretUUID(ta), Flag: client}, Step{Op: "resolve", Text: SecretUUID(tb), Flag: client})
 	}
+	// macro: the token being resolved by a client changes on the servers between two calls of the resolution
+	// (it loses a role); afterwards another token that shares the role it kept is resolved. Everything but the
+	// first token has been at rest for longer than any cache lifetime.
+	midChange := func() {
+		ra, rb := 1+rng.IntN(3), 0
+		rb = ra%3 + 1
+		ta, tb := n4(), 0
+		tb = ta%4 + 1
+		p.Steps = append(p.Steps,
+			Step{Op: "acl.role.set", ID: RoleUUID(ids.cur("r", ra)), Name: fmt.Sprintf("role%d", ra), Svc: "web", List: []string{PolicyUUID(ids.cur("p", n4()))}},
+			Step{Op: "acl.role.set", ID: RoleUUID(ids.cur("r", rb)), Name: fmt.Sprintf("role%d", rb), Svc: "api"},
+			Step{Op: "acl.token.set", ID: TokenUUID(ta), Text: SecretUUID(ta), List2: []string{RoleUUID(ids.cur("r", ra)), RoleUUID(ids.cur("r", rb))}},
+			Step{Op: "acl.token.set", ID: TokenUUID(tb), Text: SecretUUID(tb), List2: []string{RoleUUID(ids.cur("r", ra))}},
+			Step{Op: "advance", Dur: "5m"},
+			Step{Op: "rpc.mid", N: int64(2 + rng.IntN(2))},
+			Step{Op: "resolve", Text: SecretUUID(ta), Flag: true},
+			Step{Op: "acl.token.set", ID: TokenUUID(ta), Text: SecretUUID(ta), List2: []string{RoleUUID(ids.cur("r", ra))}},
+			Step{Op: "resolve", Text: SecretUUID(tb), Flag: true},
+			Step{Op: "resolve", Text: SecretUUID(ta), Flag: true})
+	}
 	n := 14 + rng.IntN(50)
 	for len(p.Steps) < n {
 		if simkit.Chance(rng, 3) {
 			shared()
+			continue
+		}
+		if w.Prop == "C08" && simkit.Chance(rng, 3) {
+			midChange()
 			continue
 		}
 		switch simkit.Weighted(rng, []int{30, 36, 12, 6, 16}) {
@@ -243,21 +267,27 @@ func (w ACLWorld) Execute(t *testing.T, pl simkit.Plan, r *simkit.Run) (v *simki
 }
 
 type aclWorldState struct {
-	w          ACLWorld
-	r          *simkit.Run
-	C          *Cluster
-	client     *consul.ACLResolver
-	defAllow   bool
-	ttl        time.Duration
-	down       string
-	rpcFail    int
-	rpcErrs    int // RPC failures during the current resolution
-	rpcMu      sync.Mutex
-	rpcFailed  int      // failed RPCs not yet added to the run's counters
-	shadow     *Replica // applies the same log and is never handed to a resolver: the reference reads it
-	shadowAt   int
-	lastACL    time.Time
-	lastFault  time.Time
+	w         ACLWorld
+	r         *simkit.Run
+	C         *Cluster
+	client    *consul.ACLResolver
+	defAllow  bool
+	ttl       time.Duration
+	down      string
+	rpcFail   int
+	rpcErrs   int // RPC failures during the current resolution
+	rpcMu     sync.Mutex
+	rpcFailed int      // failed RPCs not yet added to the run's counters
+	shadow    *Replica // applies the same log and is never handed to a resolver: the reference reads it
+	shadowAt  int
+	lastACL   time.Time
+	objTime   map[string]time.Time // when each policy, role and token (by id) was last written or deleted
+	steps     []Step
+	pc        int
+	inResolve bool
+	links     map[string]map[string]bool
+	midAt     int // the ordinal of the client RPC before which the next ACL write of the plan is committed
+	lastFault time.Time
 }
 
 // ---- reference semantics
@@ -585,6 +615,17 @@ func (s *aclWorldState) clientRPC(_ context.Context, method string, args, reply 
 		s.lastFault = time.Now() // extend-cache re-dates what it had: stale entries live one more TTL
 		return errors.New("rpc error making call: simulated: no servers reachable")
 	}
+	if s.midAt > 0 && s.inResolve && s.down != "async-cache" {
+		if s.midAt--; s.midAt == 0 && s.pc+1 < len(s.steps) && strings.HasPrefix(s.steps[s.pc+1].Op, "acl.") {
+			// the servers commit an ACL write between two calls of this resolution
+			s.pc++
+			s.r.Eventf("  ACL write between two calls of the resolution: %s", s.steps[s.pc].Short())
+			s.touch(s.steps[s.pc])
+			s.C.DoInside(s.steps[s.pc])
+			s.lastACL = time.Now()
+			s.r.Hit("fault.acl-write-during-resolution")
+		}
+	}
 	// the request and the reply cross the wire
 	var err error
 	switch method {
@@ -622,6 +663,8 @@ func (s *aclWorldState) clientRPC(_ context.Context, method string, args, reply 
 // resolve runs one ResolveToken on the chosen resolver (scheduler goroutine; background refreshes finish before it returns).
 func (s *aclWorldState) resolve(secret string, client bool) (res acl.Authorizer, err error) {
 	s.rpcErrs = 0
+	s.inResolve = true
+	defer func() { s.inResolve = false }()
 	s.C.Main(func() {
 		if client {
 			r, e := s.client.ResolveToken(secret)
@@ -685,7 +728,18 @@ func (s *aclWorldState) judgeResolve(i int, st Step) *simkit.Violation {
 	}
 	// C08: the decision table
 	if st.Flag {
-		fresh := !faulted && s.down != "async-cache" && now.Sub(s.lastACL) > s.ttl && now.Sub(s.lastFault) > s.ttl
+		// what the caches may still hold of older versions: nothing, for objects at rest for longer than the
+		// cache lifetime - the token's own objects count, not the rest of the ACL tables
+		atRest := true
+		for _, id := range s.reachable(tok) {
+			if t, ok := s.objTime[id]; ok && now.Sub(t) <= s.ttl {
+				atRest = false
+			}
+		}
+		if atRest && now.Sub(s.lastACL) <= s.ttl {
+			s.r.Hit("probe.client-resolution-judged-beside-recent-writes")
+		}
+		fresh := !faulted && s.down != "async-cache" && atRest && now.Sub(s.lastFault) > s.ttl
 		if !fresh {
 			s.r.Hit("probe.client-resolution-possibly-stale")
 			return nil
@@ -1135,11 +1189,17 @@ func (w ACLWorld) execute(p *Plan, r *simkit.Run) *simkit.Violation {
 		panic(err)
 	}
 	s.lastACL = time.Now()
-	for i, st := range p.Steps {
+	s.steps, s.objTime = p.Steps, map[string]time.Time{}
+	for s.pc = 0; s.pc < len(s.steps); s.pc++ {
+		i, st := s.pc, s.steps[s.pc]
 		r.Steps++
 		switch st.Op {
+		case "rpc.mid":
+			s.midAt = int(st.N)
 		case "resolve":
-			if v := s.judgeResolve(i, st); v != nil {
+			v := s.judgeResolve(i, st)
+			s.midAt = 0
+			if v != nil {
 				return v
 			}
 		case "filter":
@@ -1156,6 +1216,7 @@ func (w ACLWorld) execute(p *Plan, r *simkit.Run) *simkit.Violation {
 		default:
 			r.Sig(st.Op)
 			n := len(s.C.Log)
+			s.touch(st)
 			if st.Op == "acl.policy.set" && st.Flag2 && s.C.PolicyRMW(st) {
 				if len(s.C.Log) > n {
 					s.lastACL = time.Now()
@@ -1175,3 +1236,40 @@ func (w ACLWorld) execute(p *Plan, r *simkit.Run) *simkit.Violation {
 	return nil
 }
 
+// touch records that the objects an ACL write names change now.
+func (s *aclWorldState) touch(st Step) {
+	if !strings.HasPrefix(st.Op, "acl.") {
+		return
+	}
+	now := time.Now()
+	s.objTime[st.ID] = now
+	if strings.HasSuffix(st.Op, ".delete") {
+		for _, id := range st.List {
+			s.objTime[id] = now
+		}
+		return
+	}
+	// every link an object ever had (the store drops links to objects that are gone when it reads a row)
+	if s.links == nil {
+		s.links = map[string]map[string]bool{}
+	}
+	if s.links[st.ID] == nil {
+		s.links[st.ID] = map[string]bool{}
+	}
+	for _, id := range append(append([]string{}, st.List...), st.List2...) {
+		s.links[st.ID][id] = true
+	}
+}
+
+// reachable: the ids of everything a token's decisions are or were built from (itself, the policies and roles
+// it ever linked, the policies those roles ever linked).
+func (s *aclWorldState) reachable(tok *structs.ACLToken) []string {
+	ids := []string{tok.AccessorID}
+	for id := range s.links[tok.AccessorID] {
+		ids = append(ids, id)
+		for id2 := range s.links[id] {
+			ids = append(ids, id2)
+		}
+	}
+	return ids
+}
